@@ -234,14 +234,16 @@ func (e *Enc) applyCall(v ssa.Value, c *ssa.CallCommon, args []TV, in ssa.Instru
 		for _, t := range targets {
 			e.frameCheckTarget(site, t, in, guard)
 		}
-		for _, t := range targets {
-			e.havocTarget(t)
-		}
+		// the callee may allocate: bump the allocation counter first, so that the havocked locations are bounded by
+		// the counter *after* the call (they may hold objects the callee allocated)
 		if !ctr.Pure {
 			oa := e.get(e.st, e.allocKey())
 			na := e.fresh("alloc", sInt)
 			e.assert(fmt.Sprintf("(>= %s %s)", na, oa))
 			e.set(e.allocKey(), na)
+		}
+		for _, t := range targets {
+			e.havocTarget(t)
 		}
 	}
 	// results
